@@ -2,13 +2,14 @@
 SPECIFICATION Spec
 CONSTANTS
   Kinds = {"remote", "lmtp"}
-  RcptSet = {"a1", "a2", "cv", "nl", "idn"}
+  RcptSet = {"a1", "a2", "cv", "nl", "idn", "idn_ace"}
   MaxList = 2
   MaxTxns = 4
   DataSet = {"ok", "temp", "perm"}
   DropSet = {0, 1}
   SrcSet = {"ok", "noopen", "readfail", "reset"}
   LateSet = {1, 2}
+  QuarSet = {1, 2}
   Devs = {}
   Gen = FALSE
 VIEW View
